@@ -33,7 +33,7 @@ MUTABLE = (list, dict, set)
 # same content as `self`'s, `self` is unchanged (separation at clone time for these fields, for all contents).
 import z3
 from pyvc.values import Ref, Seq, Map, Set, Opt, Enum, SBool, SRef, fresh_name, to_z3  # explicit: a star import would shadow the shortcuts' And/Or/Not
-from pyvc.values import Rec, Loc
+from pyvc.values import Rec, Loc, Unsupported
 from pyvc.verify import Unit
 import unified_planning.model.mixins as _mx
 
@@ -83,7 +83,123 @@ class CloneTo(Unit):
             st.oblige(f"{f}: target content equals the source's", st.load(lo).same(ctx["c0"][f]))
 
 
+# ---- MultiAgentProblem.clone: the whole method on the real source.  The clone is a NEW problem object; every container it holds is a fresh object
+# with the source's content; every cloned agent is cloned FOR THE CLONE (Agent.clone(problem) binds the agent's type registration and name checks
+# to `problem`), in order; the source is unchanged.
+from unified_planning.model.multi_agent import ma_problem as _map, ma_environment as _mae
+
+_Agent = Ref("Agent22")
+_Goal = Ref("FNode22")
+_agent_clone = z3.Function("Agent22.clone", _Agent.z3sort(), z3.IntSort(), _Agent.z3sort())      # (agent, identity of the owning problem)
+_agent_owner = z3.Function("Agent22.owner", _Agent.z3sort(), z3.IntSort())
+
+
+def _agent_clone_m(eng, st, selfv, args, kw):
+    owner = args[0]
+    if not isinstance(owner, Loc):
+        raise Unsupported("Agent.clone called with something that is not a problem object")
+    r = _agent_clone(selfv.z, z3.IntVal(owner.id))
+    yield st, _Agent.wrap(r)
+
+
+_Agent.methods["clone"] = _agent_clone_m
+
+_MA_FIELDS = {"_agents": ("list", _Agent), "_user_types": ("list", _ElemT["Type"]), "_user_types_hierarchy": ("dict", _ElemT["Type"], _ElemT["Type"]),
+              "_objects": ("list", _ElemT["Object"]), "_initial_value": ("dict", _ElemT["FNode"], _ElemT["FNode"]), "_goals": ("list", _Goal),
+              "_initial_defaults": ("dict", _ElemT["Type"], _ElemT["FNode"])}
+_ENV_FIELDS = {"_fluents": ("list", _ElemT["Fluent"]), "_fluents_defaults": ("dict", _ElemT["Fluent"], _ElemT["FNode"])}
+
+
+def _fresh_container(eng, st, spec, name):
+    if spec[0] == "list":
+        return eng.fresh_of(st, Seq(spec[1]), name), "list"
+    return eng.fresh_of(st, Map(spec[1], spec[2]), name), "dict"
+
+
+def _content_same(v, want, spec):
+    """z3 Bool: the container value `v` (symbolic, or a concrete CList / CDict still holding what a constructor put there) has the content `want`"""
+    from pyvc.values import CList, CDict, SSeq, SMap
+    if isinstance(v, CList):
+        v = SSeq.of(spec[1], list(v.items))
+    elif isinstance(v, CDict):
+        if len(v.items):
+            raise Unsupported("a concrete non-empty dict in the clone")
+        v = SMap.empty(spec[1], spec[2])
+    return v.same(want)
+
+
+class MAClone(Unit):
+    prop = "C22"
+    name = "MultiAgentProblem.clone"
+    allowed_raises = ()
+    doc = ("the clone is a new problem; each of its containers is a fresh object with the source's content; agent i of the clone is "
+           "Agent.clone(agent i of the source, THE CLONE); the source is unchanged")
+
+    def target(self):
+        return _map.MultiAgentProblem.clone
+
+    def configure(self, eng):
+        from pyvc.values import CList, CDict
+        eng.partial_classes.add(_map.MultiAgentProblem)
+
+        def ctor(eng_, st, args, kw):
+            # MultiAgentProblem(name, environment): a new object whose containers are new and empty (its own MAEnvironment included)
+            env_ma = st.alloc(Rec(_mae.MAEnvironment, {f: st.alloc(CList([]) if spec[0] == "list" else CDict({}), spec[0]) for f, spec in _ENV_FIELDS.items()}), "ma_env")
+            fields = {f: st.alloc(CList([]) if spec[0] == "list" else CDict({}), spec[0]) for f, spec in _MA_FIELDS.items()}
+            fields.update({"_name": args[0], "_env": args[1] if len(args) > 1 else kw.get("environment"), "_env_ma": env_ma})
+            new = st.alloc(Rec(_map.MultiAgentProblem, fields), "new_p")
+            st.ghost["ma_new"] = st.ghost.get("ma_new", ()) + (new,)
+            yield st, new
+        eng.contracts[_map.MultiAgentProblem] = ctor
+
+    def setup(self, eng, st):
+        src, c0, esrc, ec0 = {}, {}, {}, {}
+        for f, spec in _MA_FIELDS.items():
+            v, kind = _fresh_container(eng, st, spec, "self" + f)
+            c0[f], src[f] = v, st.alloc(v, kind)
+        for f, spec in _ENV_FIELDS.items():
+            v, kind = _fresh_container(eng, st, spec, "env" + f)
+            ec0[f], esrc[f] = v, st.alloc(v, kind)
+        env_ma = st.alloc(Rec(_mae.MAEnvironment, dict(esrc)), "self_ma_env")
+        fields = dict(src)
+        fields.update({"_name": "M", "_env": Ref("Environment22").fresh("env"), "_env_ma": env_ma})
+        selfv = st.alloc(Rec(_map.MultiAgentProblem, fields), "self")
+        return [selfv], {}, dict(selfv=selfv, src=src, c0=c0, esrc=esrc, ec0=ec0, env_ma=env_ma)
+
+    def post(self, eng, ctx, st, out):
+        if out[0] != "return":
+            return
+        new = out[1]
+        made = st.ghost.get("ma_new", ())
+        st.oblige("the result is the one problem object constructed by this call", z3.BoolVal(isinstance(new, Loc) and len(made) == 1 and made[0].id == new.id and new.id != ctx["selfv"].id))
+        if not isinstance(new, Loc):
+            return
+        for f in _MA_FIELDS:
+            ls, lo = st.getfield(ctx["selfv"], f), st.getfield(new, f)
+            st.oblige(f"{f}: the source still refers to its own container", z3.BoolVal(isinstance(ls, Loc) and ls.id == ctx["src"][f].id))
+            st.oblige(f"{f}: the clone holds a fresh container, not the source's", z3.BoolVal(isinstance(lo, Loc) and lo.id != ctx["src"][f].id))
+            st.oblige(f"{f}: source content unchanged", st.load(ls).same(ctx["c0"][f]))
+            if f != "_agents":
+                st.oblige(f"{f}: clone content equals the source's", _content_same(st.load(lo), ctx["c0"][f], _MA_FIELDS[f]))
+        # agents: same number, agent i is the source's agent i cloned for THE CLONE
+        got = st.load(st.getfield(new, "_agents"))
+        want = ctx["c0"]["_agents"]
+        i = z3.Int(fresh_name("ai"))
+        st.oblige("_agents: as many agents as the source", got.n == want.n)
+        st.oblige("_agents: agent i of the clone is agent i of the source cloned for the clone (not for the source)",
+                  z3.ForAll([i], z3.Implies(z3.And(i >= 0, i < want.n), z3.Select(got.arr, i) == _agent_clone(z3.Select(want.arr, i), z3.IntVal(new.id)))))
+        se, ne = st.getfield(ctx["selfv"], "_env_ma"), st.getfield(new, "_env_ma")
+        st.oblige("the clone has its own MA environment object", z3.BoolVal(isinstance(ne, Loc) and isinstance(se, Loc) and ne.id != se.id and se.id == ctx["env_ma"].id))
+        for f in _ENV_FIELDS:
+            ls, lo = st.getfield(se, f), st.getfield(ne, f)
+            st.oblige(f"ma_environment.{f}: the source still refers to its own container", z3.BoolVal(isinstance(ls, Loc) and ls.id == ctx["esrc"][f].id))
+            st.oblige(f"ma_environment.{f}: the clone holds a fresh container, not the source's", z3.BoolVal(isinstance(lo, Loc) and lo.id != ctx["esrc"][f].id))
+            st.oblige(f"ma_environment.{f}: source content unchanged", st.load(ls).same(ctx["ec0"][f]))
+            st.oblige(f"ma_environment.{f}: clone content equals the source's", _content_same(st.load(lo), ctx["ec0"][f], _ENV_FIELDS[f]))
+
+
 UNITS = [
+    MAClone(),
     CloneTo(_mx.FluentsSetMixin, {"_fluents": ("list", "Fluent"), "_initial_defaults": ("dict", "Type", "FNode"), "_fluents_defaults": ("dict", "Fluent", "FNode")}),
     CloneTo(_mx.InitialStateMixin, {"_initial_value": ("dict", "FNode", "FNode")}),
     CloneTo(_mx.ObjectsSetMixin, {"_objects": ("list", "Object")}),
@@ -409,6 +525,11 @@ def make_ops(kind, sig, rng, k):
             ("agent action increase", lambda pr: pr.agent("ag1").action("take").add_increase_effect(pr.agent("ag1").fluent("cnt"), 2)),
             ("agent.add_action", lambda pr, i=rng.randint(0, 1): pr.agent("ag2").add_action(InstantaneousAction(f"noop{i}"))),
             ("agent public goal", lambda pr, o=rng.choice(objs): pr.agent("ag2").add_public_goal(pr.agent("ag2").fluent("has")(o))),
+            # edits made THROUGH an agent that reach the problem it belongs to: a user type the problem does not know yet (registered in the
+            # agent's problem), a name that is checked against the agent's problem
+            ("agent.add_fluent new user type", lambda pr: pr.agent("ag1").add_fluent(Fluent("carry", BoolType(), c=UserType("Parcel")), default_initial_value=False)),
+            ("agent.add_action new user type", lambda pr: pr.agent("ag2").add_action(InstantaneousAction("ship", c=UserType("Crate")))),
+            ("agent.add_fluent named like an object", lambda pr: pr.agent("ag2").add_fluent(Fluent("no0", BoolType()), default_initial_value=False)),
         ]
     else:
         cands = [
